@@ -1572,7 +1572,7 @@ class SecurityBase(Node):
                     # the step above ignores per-unit costs, so flooring it
                     # can take one unit too many off: step back up while one
                     # more unit still fits
-                    while full_outlay_of_1_more < amount and i <= 1e4:
+                    while full_outlay_of_1_more <= amount and i <= 1e4:
                         q = q + 1
                         full_outlay = full_outlay_of_1_more
                         full_outlay_of_1_more, _, _, _ = self.outlay(q + 1)
